@@ -232,7 +232,7 @@ fn impl_apply(t: Time, op: &Op) -> Result<Time, AstrolabeError> {
         },
         Op::SetOffset { off } => t.set_offset(Offset::Fixed(*off)),
         Op::AsOffset { off } => t.as_offset(Offset::Fixed(*off)),
-        Op::FromDateTime { i, off } => Time::from(mk_dt_off(i.i(), *off)),
+        Op::FromDateTime { i, off } => Time::from(mk_dt_off_any(i.i(), *off)),
         Op::FormatParse => Time::parse(&t.format(PATTERN), PATTERN)?,
         Op::Complement { .. } => t,
         Op::ParseFractions { secs, widths, nines } => {
